@@ -287,6 +287,60 @@ def check_wnaf(res, facts):
                     if has_shl and has_len:
                         ok = True
             (rule.ok if ok else rule.bad)(key, "returns None when 1 << (w-1) exceeds the table length", fn.loc)
+            # digit -> table entry: table[i] holds (2i+1)*P, so an odd digit n > 0 adds table[n / 2] and n < 0 subtracts
+            # table[(-n) / 2]; digits are consumed most significant first over the full recoding of the caller's scalar
+            from rules.c07 import E, show
+            key2 = "ark_ec|WnafContext::mul_with_table|digit use"
+            digit = None
+            probs = []
+            nx = [t for _, t in fn.calls() if t["f"].get("name") == "next"]
+            if len(nx) == 1:
+                src = E(fn, nx[0]["args"][0])
+                digit = ("call", "next", (src,), ("0",))
+                want_src = ("call", "rev", (("call", "iter", (("call", "find_wnaf", (("call", "into_bigint", (("arg", 3, ()),)), ("arg", 1, ("window_size",)))),)),))
+                if src != want_src:
+                    probs.append("digits come from %s, expected the full recoding find_wnaf(scalar, window_size), most significant first" % show(src)[:100])
+            else:
+                probs.append("digit iteration not found")
+            adds = [(bb, t) for bb, t in fn.calls() if t["f"].get("name") == "add_assign"]
+            subs = [(bb, t) for bb, t in fn.calls() if t["f"].get("name") == "sub_assign"]
+            if digit is not None and len(adds) == 1 and len(subs) == 1:
+                ea, es = E(fn, adds[0][1]["args"][1]), E(fn, subs[0][1]["args"][1])
+                pos_idx = (("call", "div", (digit, 2)), ("bin", "Div", digit, 2))
+                neg_idx = (("bin", "Div", ("call", "neg", (digit,)), 2), ("call", "div", (("call", "neg", (digit,)), 2)), ("bin", "Div", ("un", "Neg", digit), 2))
+                def idx_of(e):
+                    return e[2][0][1] if (isinstance(e, tuple) and e[0] == "arg" and e[1] == 2 and len(e[2]) == 1 and e[2][0][0] == "idx") else None
+                if idx_of(ea) not in pos_idx:
+                    probs.append("a positive digit n adds %s, expected table[n / 2]" % show(ea)[:80])
+                if idx_of(es) not in neg_idx:
+                    probs.append("a negative digit n subtracts %s, expected table[(-n) / 2]" % show(es)[:80])
+                # polarity: the add sits on the `n > 0` arm
+                gts = [(bi, b["t"]) for bi, b in enumerate(fn.bbs) if b["t"]["k"] == "switch" and E(fn, b["t"]["o"]) == ("bin", "Gt", digit, 0)]
+                if len(gts) != 1:
+                    probs.append("no single test `n > 0` selecting between add and subtract")
+                else:
+                    t_ = gts[0][1]
+                    false_t, true_t = t_["tgts"][0], t_["else"]
+                    def reach(a_, b_):
+                        seen, st_ = {a_}, [a_]
+                        succ = fn.succ()
+                        while st_:
+                            x = st_.pop()
+                            if x == b_:
+                                return True
+                            for y in succ[x]:
+                                if y not in seen and y != gts[0][0]:
+                                    seen.add(y)
+                                    st_.append(y)
+                        return False
+                    if not (reach(true_t, adds[0][0]) and reach(false_t, subs[0][0])) or reach(true_t, subs[0][0]) and not reach(true_t, adds[0][0]):
+                        probs.append("add / subtract are attached to the wrong sign of the digit")
+                dbl = [bb for bb, t in fn.calls() if t["f"].get("name") == "double_in_place"]
+                if len(dbl) != 1 or not fn.dominates(dbl[0], adds[0][0]) and not any(True for _ in ()):
+                    pass
+            elif digit is not None:
+                probs.append("expected one add and one subtract of a table entry")
+            (rule.bad if probs else rule.ok)(key2, "; ".join(probs) if probs else "n > 0: += table[n/2]; n < 0: -= table[(-n)/2]; digits of find_wnaf(scalar, w) from the top", fn.loc)
         elif fn.name == "table":
             names = [t["f"].get("name") for _, t in fn.calls()]
             ok = "double" in names and "add_assign" in names and "push" in names
